@@ -2,10 +2,21 @@ PROP = {
     "lean_modules": ["GunYu.Props.C09"],
     "audit_namespaces": ["GunYu.Props.C09"],
     "required_theorems": ['GunYu.Props.C09.no_flush_inside_txn', 'GunYu.Props.C09.no_flush_inside_txn_run', 'GunYu.Props.C09.multi_opens', 'GunYu.Props.C09.exec_flushes_one_block', 'GunYu.Props.C09.block_prefix_applies_nothing', 'GunYu.Props.C09.block_complete_applies_all', 'GunYu.Props.C09.source_txn_is_one_block'],
-    "expected_facts": {},
+    "expected_facts": {"sender_src": {
+        "pkg/redis/checkpoint/checkpoint.go:GetCheckpoint": "50a563812be29664",
+        "pkg/redis/checkpoint/checkpoint.go:fetchCheckpoint": "88bc56bddceba24b",
+        "syncer/output.go:StartPoint": "7b6458574290bd0d",
+        "syncer/output.go:buildSelectCmdExecution": "63f0b21f8a066f45",
+        "syncer/output.go:checkpoint": "75bf5e2381107f2c",
+        "syncer/output.go:parseAofCommand": "db39fcdce07f10d4",
+        "syncer/output.go:selectDB": "2489f312ebee2a1e",
+        "syncer/output.go:sendAof": "6607e517ed10bfb6",
+        "syncer/output.go:sendCmdsBatch": "334c0aed36b88ff1",
+        "syncer/transaction.go:transactionStatus": "07f49e3410d200d0"
+}},
     "harness": [{"name": "Sender", "pkg": "./syncer/", "test": "TestVerifSender", "timeout_thorough": "60m"}],
     "driver": "drv_Sender",
-    "gens": ["c10"],
+    "gens": ["c10", "c01"],
     "violation_prefix": "C09:",
     "rule": "cases = (config, stream, schedule): config over txn/ticker mode x resumable x pipelined x batch count {1,2,3,4,8,100} x byte limit {1,40,200,2^30} x TargetDb/TargetDbMap x db/command/prefix filters x startDbId/pre-existing checkpoints; stream of 0-30 (quick) / 0-60 (thorough) source commands (binary args, SELECT to mapped/unmapped/filtered DBs, MULTI groups of 0-4 commands, PING, REPLCONF GETACK, sentinel hello, blacklisted and NoRoute commands, keys with reserved/filtered prefixes); schedule = writes of 1-6 commands at chosen virtual instants with idle gaps of 0-12 s (also before the first item) and five ticker-period triples, run on the REAL RedisOutput.sendAof (parser goroutine, sendCmdsBatch loop, real conn.RedisConn batchers) inside testing/synctest against the target double; output = the target's request log with the DB each request executes in, plus the real StartPoint after every (thorough) / sampled (quick) crash prefix of that log; compared line by line with the Lean model (parseStep, run, applyLog, startPoint). Independent Go monitors check the property on the real log. distinct_nontrivial = distinct non-empty request logs.",
     "trusted": ['target double (harness/overlay/pkg/vfdoubles/target.go): MULTI/EXEC atomicity, per-DB hashes, INFO keyspace; Redis command semantics of data commands are not interpreted', 'Go testing/synctest virtual time; select over simultaneously ready channels is never exercised (ticker periods and write instants are pairwise distinct)', 'RESP decoding (C12) and the filter functions (C10) are parameters of the model here: theorems hold for every filter'],
